@@ -132,11 +132,11 @@ def check_case(case):
             return list(choose([(p, F(1, len(perms))) for p in perms]))
 
         def uniform(a, b):
-            # only compared with a threshold t = 1/(c-1) for the c candidates still standing: split at t
-            c = len(cands) - nsteps[0]
+            # the draw is only compared with thresholds of the form 1/j: split [0,1] at every such point, so the law is exact
+            # whichever of them the code uses (each piece is represented by its midpoint and weighted by its width)
             nsteps[0] += 1
-            t = F(1, c - 1) if c > 1 else F(1)
-            return choose([(float(t) / 2, t), (min(0.999999, float(t) + (1 - float(t)) / 2), 1 - t)]) if t < 1 else float(t) / 2
+            pts = sorted({F(0), F(1)} | {F(1, j) for j in range(1, len(cands) + 1)})
+            return choose([(float((lo + hi) / 2), hi - lo) for lo, hi in zip(pts, pts[1:])])
 
         def np_choice(a, p=None, size=None, replace=True):
             ps = [F(x).limit_denominator(10 ** 9) for x in p]
